@@ -39,8 +39,10 @@ namespace igris
             m_mutex.lock();
             bWasSignalled = m_bFlag;
             m_bFlag = true;
-            m_mutex.unlock();
+            // notify while the mutex is still held: once it is released a
+            // waiter may return and destroy the event
             m_condition.notify_all();
+            m_mutex.unlock();
             return bWasSignalled == false;
         }
 
